@@ -190,7 +190,7 @@ class MultiNestOptimizer(Optimizer):
         self.warning('Store the multinest results')
         NEST_out = {'solutions': {}}
         data = np.loadtxt(os.path.join(self.dir_multinest,
-                                       '{}.txt'.format(self.multinest_prefix)))
+                                       '{}.txt'.format(self.multinest_prefix)), ndmin=2)
 
         NEST_analyzer = pymultinest.Analyzer(n_params=len(
             self.fitting_parameters), outputfiles_basename=os.path.join(self.dir_multinest, self.multinest_prefix))
